@@ -18,16 +18,17 @@ import (
 // idioms make the pair UNDECIDED (never silently ignored).
 
 type wfx struct {
-	info    *types.Info
-	fn      *FuncInfo
-	ops     []string                  // emitted / accounted operations (with loop context prefix)
-	guards  []string                  // early "nothing to encode" returns
-	ints    map[types.Object][]string // accumulated ops of int locals (n, size, siz)
-	alias   map[types.Object]string   // non-int single-definition locals → canonical expression
-	ctx     []string
-	problem string
-	bufObj  types.Object // append side: the []byte being appended to
-	errObj  map[types.Object]bool
+	info      *types.Info
+	fn        *FuncInfo
+	ops       []string                  // emitted / accounted operations (with loop context prefix)
+	guards    []string                  // early "nothing to encode" returns
+	ints      map[types.Object][]string // accumulated ops of int locals (n, size, siz)
+	alias     map[types.Object]string   // non-int single-definition locals → canonical expression
+	ctx       []string
+	problem   string
+	bufObj    types.Object // append side: the []byte being appended to
+	specMarks []int
+	errObj    map[types.Object]bool
 }
 
 func (w *wfx) fail(format string, a ...any) {
@@ -102,6 +103,10 @@ func isWireTagExpr(e ast.Expr) bool {
 
 // calleeStem: a name shared by a size function and its append sibling.
 func calleeStem(name string) string {
+	switch name {
+	case "marshalMessage", "size": // proto.MarshalOptions: size(m) ↔ marshalMessage(b, m)
+		return ""
+	}
 	for _, p := range []string{"marshalAppend", "MarshalAppend", "append", "marshal", "size", "Size"} {
 		if strings.HasPrefix(name, p) {
 			return strings.TrimPrefix(name, p)
@@ -211,8 +216,8 @@ func (w *wfx) intOps(e ast.Expr) []string {
 			inner := w.intOps(x.Args[0])
 			return append([]string{w.pre("VL[" + strings.Join(sortedCopy(inner), ";") + "]")}, inner...)
 		case "encoding/protowire.SizeGroup":
-			inner := w.intOps(x.Args[1])
-			return append([]string{w.pre("T"), w.pre("T")}, inner...)
+			inner := w.intOps(x.Args[1]) // SizeGroup(num, n) = n + SizeTag(num): the end-group tag
+			return append([]string{w.pre("T")}, inner...)
 		}
 		// nested size call: a function, method or function-valued field named size…/Size…
 		name := ""
@@ -371,6 +376,23 @@ func (w *wfx) stmt(s ast.Stmt, isAppend bool) {
 	case *ast.AssignStmt:
 		// b = … / b, err = …
 		if isAppend && len(x.Lhs) >= 1 && objOf(w.info, x.Lhs[0]) == w.bufObj && len(x.Rhs) == 1 {
+			if call, ok := unparen(x.Rhs[0]).(*ast.CallExpr); ok {
+				switch short(calleeKey(w.info, call)) {
+				case "appendSpeculativeLength": // b, pos = appendSpeculativeLength(b): length prefix of what follows
+					w.specMarks = append(w.specMarks, len(w.ops))
+					return
+				case "finishSpeculativeLength":
+					if len(w.specMarks) == 0 {
+						w.fail("finishSpeculativeLength without appendSpeculativeLength")
+						return
+					}
+					m := w.specMarks[len(w.specMarks)-1]
+					w.specMarks = w.specMarks[:len(w.specMarks)-1]
+					inner := append([]string{}, w.ops[m:]...)
+					w.ops = append(w.ops, w.pre("VL["+strings.Join(sortedCopy(inner), ";")+"]"))
+					return
+				}
+			}
 			w.emit(x.Rhs[0])
 			return
 		}
@@ -441,6 +463,27 @@ func (w *wfx) stmt(s ast.Stmt, isAppend bool) {
 			}
 		}
 		w.fail("unsupported return %s", firstLine(exprOrStmt(x)))
+	case *ast.SwitchStmt:
+		if x.Tag == nil || x.Init != nil {
+			w.fail("unsupported switch %s", firstLine(exprOrStmt(x)))
+			return
+		}
+		for _, cs := range x.Body.List {
+			cc := cs.(*ast.CaseClause)
+			var labels []string
+			for _, e := range cc.List {
+				n, _ := labelName(w.info, e)
+				labels = append(labels, n)
+			}
+			sort.Strings(labels)
+			lab := "default"
+			if len(labels) > 0 {
+				lab = strings.Join(labels, ",")
+			}
+			w.ctx = append(w.ctx, "case "+lab)
+			w.stmts(cc.Body, isAppend)
+			w.ctx = w.ctx[:len(w.ctx)-1]
+		}
 	case *ast.ExprStmt:
 		w.fail("unsupported statement %s", firstLine(exprOrStmt(x)))
 	default:
@@ -472,6 +515,10 @@ func (w *wfx) emit(rhs ast.Expr) {
 		arg := call.Args[1]
 		if isWireTagExpr(arg) {
 			w.ops = append(w.ops, w.pre("T"))
+			return
+		}
+		if _, ok := isCall(w.info, unparen(arg), "encoding/protowire.EncodeTag"); ok {
+			w.ops = append(w.ops, w.pre("T")) // a tag built in place (end-group marker)
 			return
 		}
 		// uint64(n) where n is an int local with known content → length prefix
@@ -536,8 +583,13 @@ func (c *Ctx) ruleSizeAppend(rule string, pkgs []string, notAnalysed map[string]
 	for _, pkg := range pkgs {
 		byName := map[string]*FuncInfo{}
 		for _, fi := range P.FuncsIn(pkg) {
-			if fi.Decl.Body != nil && fi.Decl.Recv == nil {
+			if fi.Decl.Body == nil {
+				continue
+			}
+			if fi.Decl.Recv == nil {
 				byName[fi.Obj.Name()] = fi
+			} else if rn := namedTypeName(fi.Obj.Type().(*types.Signature).Recv().Type()); rn == "proto.MarshalOptions" {
+				byName[fi.Obj.Name()] = fi // the reflection encoder's methods are paired by name like functions
 			}
 		}
 		var names []string
